@@ -51,7 +51,7 @@ fn show_balances(bals: &[Balance]) -> String {
 	v.iter().map(|t| format!("{}:{}:{}", ["A", "C", "T", "P", "O", "R"][t.0 as usize], t.1, t.2)).collect::<Vec<_>>().join(" ")
 }
 
-struct Outcome { ops: Vec<(String, String, String)>, class: String, oracle: Vec<String> }
+struct Outcome { ops: Vec<(String, String, String)>, class: String, oracle: Vec<String>, est_kind: String }
 
 #[derive(Clone, Copy, PartialEq, Debug)]
 enum K { S, O, I, U }
@@ -70,7 +70,7 @@ fn commitment_for(net: &Net, observer: usize, chan_id: ChannelId, txid: Txid) ->
 
 fn close_scenario(seed: u64, thorough: bool) -> Result<Outcome, String> {
 	let mut rng = Rng::new(seed);
-	let mut out = Outcome { ops: vec![], class: String::new(), oracle: vec![] };
+	let mut out = Outcome { ops: vec![], class: String::new(), oracle: vec![], est_kind: String::new() };
 	// closure by the counterparty is also run on anchor channels (A's claims there need no external funding);
 	// A's own close on an anchor channel needs a wallet-funded BumpTransaction handler: not exercised (cfg `partial`)
 	let holder_close = rng.chance(1, 2);
@@ -177,8 +177,12 @@ fn close_scenario(seed: u64, thorough: bool) -> Result<Outcome, String> {
 	let mut idle = 0;
 	let lazy = rng.chance(1, 3);        // slow miners: claims sit unconfirmed long enough for the bump timers to fire
 	let mut n_rebroadcast = 0u32;
+	let fee_kind = TRAJS[rng.below(6) as usize];
+	let mut fee_traj = Est::new(fee_kind, &mut rng);
+	out.est_kind = format!("close-estimator:{:?}", fee_kind);
 	for _round in 0..420 {
-		if rng.chance(1, 12) { let mut f = net.nodes[a].fee_estimator.sat_per_kw.lock().unwrap(); *f = (*f + rng.below(1500) as u32).min(20_000); }
+		// the fee estimator follows a scripted trajectory (falling / rising / oscillating / random walk / spike-then-crash / constant)
+		if rng.chance(1, 4) { let v = fee_traj.next(&mut rng).min(60_000); *net.nodes[a].fee_estimator.sat_per_kw.lock().unwrap() = v; }
 		let h = net.nodes[a].best_block_info().1;
 		// collect broadcasts; A's are checked for validity and finality at THIS height
 		for i in 0..2 {
@@ -255,12 +259,480 @@ fn close_scenario(seed: u64, thorough: bool) -> Result<Outcome, String> {
 	Ok(out)
 }
 
+// =====================================================================================================================
+// c07fee — "raises their fees monotonically until they confirm", all channel types incl. anchor channels needing external
+// fee inputs, all fee-estimator trajectories.
+//   (1) differential of the REAL PackageTemplate::compute_package_feerate / compute_package_output (hooks
+//       verif_hooks::package::{compute_package_feerate, compute_package_output}) against the translation, over boundary
+//       values (prev = 0, around 4x / 5x the estimate, the floor 253, u32 / u64 extremes) and PRNG tuples;
+//   (2) trajectories: the real function iterated the way OnchainTxHandler does (`set_feerate(result)`), over falling /
+//       rising / oscillating / spiking estimator sequences and mixed strategies — compared with Model `extTargets` /
+//       `ownFeerates`;
+//   (3) end to end: ANCHOR channels closed unilaterally; the closer's monitor yields BumpTransaction events (commitment
+//       bump, HTLC claims) whose target feerates are followed per claim id across blocks / rebroadcasts while the estimator
+//       falls, rises or oscillates; events are (optionally) funded by the node's BumpTransactionEventHandler + test wallet;
+//       the other node (closed on by its counterparty) re-issues self-funded claims.  Every observed event is one `pf` op.
+//   Implementation oracles (no model): "target feerate of claim X went down from a to b", "replacement transaction pays
+//   less fee / a lower feerate than the transaction it replaces", consensus validity of the funded transactions.
+use bump::ConstFee;
+use lightning::events::bump_transaction::BumpTransactionEvent;
+use lightning::ln::verif_hooks::package as vp;
+
+const U32M: u64 = u32::MAX as u64;
+/// candidate finding (satoshi-level rounding): a stable text so that known_findings.txt can refer to it
+const KF1: &str = "KF-C07-1 re-broadcast of a self-funded claim after an RBF bump pays LESS fee than the transaction it re-issues (feerate_bump stores fee*1000/weight rounded down and RetryPrevious / HighestOfPreviousOrNew recompute the fee from it; at most weight/1000 + 1 sat)";
+
+fn ovf_or_panic(p: &str) -> String { if p.contains("overflow") { "ovf".into() } else { format!("panic {}", p.split('\n').next().unwrap_or("")) } }
+
+/// `compute_package_feerate` through the hook; a u32 overflow panic (debug build) is the outcome `ovf`
+fn real_pf(params: &lightning::ln::chan_utils::ChannelTransactionParameters, prev: u64, strat: u8, est: u32) -> Result<u32, String> {
+	guarded(AssertUnwindSafe(|| vp::compute_package_feerate(prev, strat, ConstFee(est), params)))
+}
+
+/// impl-side oracle for ONE call (no model): never below the previous feerate; a ForceBump that does not raise is capped
+fn pf_oracle(rec_fail: &mut Vec<String>, prev: u64, strat: u8, est: u32, r: u32, ctx: &str) {
+	let prev32 = prev.min(U32M);
+	let bounded = (est as u64).max(253);
+	if prev != 0 && (r as u64) < prev32 {
+		rec_fail.push(format!("compute_package_feerate LOWERS the target feerate: previous {} strategy {} estimate {} -> {}{}", prev, strat, est, r, ctx));
+	} else if prev == 0 && (r as u64) != bounded {
+		rec_fail.push(format!("compute_package_feerate first issue: estimate {} -> {} (expected the floor-bounded estimate {}){}", est, r, bounded, ctx));
+	} else if strat == 2 && prev != 0 && prev <= U32M && (r as u64) == prev && !(5 * bounded <= prev || prev == U32M) {
+		rec_fail.push(format!("compute_package_feerate ForceBump does not raise although not capped: previous {} estimate {} -> {}{}", prev, est, r, ctx));
+	} else if (r as u64) > prev32.max(5 * bounded) {
+		rec_fail.push(format!("compute_package_feerate overshoots max(previous, 5 x estimate): previous {} strategy {} estimate {} -> {}{}", prev, strat, est, r, ctx));
+	}
+}
+
+#[derive(Clone, Copy, Debug)]
+enum Traj { Falling, Rising, Oscillating, Walk, SpikeCrash, Constant }
+const TRAJS: [Traj; 6] = [Traj::Falling, Traj::Rising, Traj::Oscillating, Traj::Walk, Traj::SpikeCrash, Traj::Constant];
+
+struct Est { kind: Traj, k: u32, cur: u32, hi: u32, lo: u32, spike_len: u32 }
+impl Est {
+	fn new(kind: Traj, rng: &mut Rng) -> Est {
+		let hi = rng.range(1500, 40_000) as u32;
+		let lo = match rng.below(3) { 0 => 0, 1 => 253, _ => rng.range(1, (hi / 6) as u64) as u32 };
+		let cur = match kind { Traj::Falling => hi, Traj::Rising => rng.range(1, 1500) as u32, Traj::Oscillating => hi, Traj::Walk => rng.range(253, 8000) as u32,
+			Traj::SpikeCrash => hi, Traj::Constant => *rng.pick(&[0u32, 253, 1000, 7000]) };
+		Est { kind, k: 0, cur, hi, lo, spike_len: rng.range(1, 4) as u32 }
+	}
+	fn next(&mut self, rng: &mut Rng) -> u32 {
+		self.k += 1;
+		self.cur = match self.kind {
+			Traj::Falling => if rng.chance(1, 5) { self.cur / rng.range(4, 9) as u32 } else { (self.cur as u64 * rng.range(55, 99) / 100) as u32 },
+			Traj::Rising => (self.cur as u64 + rng.below(self.cur as u64 / 2 + 400)).min(120_000) as u32,
+			Traj::Oscillating => if self.k % 2 == 1 { self.lo } else { (self.hi as u64 * rng.range(60, 140) / 100) as u32 },
+			Traj::Walk => ((self.cur as u64).max(1) * rng.range(20, 450) / 100).clamp(1, 150_000) as u32,
+			Traj::SpikeCrash => if self.k < self.spike_len { self.hi } else { self.lo },
+			Traj::Constant => self.cur,
+		};
+		self.cur
+	}
+}
+
+fn run_fee_arith(rec: &mut Rec, rng: &mut Rng, thorough: bool, scale: u64) {
+	let logger = NullLogger;
+	let params = [bump::synth_params(false), bump::synth_params(true)];
+	let mut fails: Vec<String> = vec![];
+	// ---- (1a) compute_package_feerate: boundary grid -----------------------------------------------------------------
+	let ests: Vec<u32> = vec![0, 1, 252, 253, 254, 1000, 5000, 65_535, 858_993_458, 858_993_459, 858_993_460, 1_000_000_000, u32::MAX - 1, u32::MAX];
+	let mut n_pf = 0u64;
+	let one_pf = |rec: &mut Rec, fails: &mut Vec<String>, prev: u64, strat: u8, est: u32, tag: &str| {
+		let r = real_pf(&params[(prev % 2) as usize], prev, strat, est);
+		let bounded = (est as u64).max(253);
+		let res = match &r { Ok(v) => v.to_string(), Err(p) => ovf_or_panic(p) };
+		let class = match &r {
+			Ok(v) => format!("pf{}:{}{}", strat, if prev == 0 { "first" } else if (*v as u64) == prev.min(U32M) { "kept" } else if (*v as u64) == bounded { "estimate" } else if (*v as u64) == 5 * bounded { "cap5x" } else { "plus25" }, tag),
+			Err(p) => if p.contains("overflow") { "pf:u32-overflow".to_string() } else { "pf:panic".to_string() } };
+		match &r {
+			Ok(v) => pf_oracle(fails, prev, strat, est, *v, ""),
+			// `feerate_estimate * 5` is a u32 product: only an estimate above u32::MAX / 5 may overflow it, and only where it is evaluated
+			Err(p) => if !(p.contains("overflow") && strat == 2 && prev != 0 && 5 * bounded > U32M && bounded <= prev.min(U32M)) {
+				fails.push(format!("compute_package_feerate panicked: previous {} strategy {} estimate {}: {}", prev, strat, est, p.split('\n').next().unwrap_or(""))); },
+		}
+		rec.case(&format!("pf {} {} {}", prev, strat, est), &res, &class, true);
+	};
+	for &est in &ests {
+		let b = (est as u64).max(253);
+		let mut prevs: Vec<u64> = vec![0, 1, 3, 4, 5, 252, 253, 254, U32M - 1, U32M, U32M + 1, u64::MAX - 1, u64::MAX, 1 << 32, (1 << 33) + 7, U32M * 4 / 5, U32M * 4 / 5 + 1, U32M * 4 / 5 + 2];
+		for c in [b, 4 * b, 5 * b, 5 * b * 4 / 5, 6 * b, 25 * b, b / 2] { for d in 0..5u64 { prevs.push((c + d).saturating_sub(2)); } }
+		prevs.sort(); prevs.dedup();
+		for &prev in &prevs { for strat in 0..3u8 { one_pf(rec, &mut fails, prev, strat, est, ""); n_pf += 1; } }
+	}
+	// ---- (1b) compute_package_feerate: PRNG tuples --------------------------------------------------------------------
+	let n_rand = if thorough { 300_000 } else { 10_000 } * scale;
+	for k in 0..n_rand {
+		let est = match rng.below(6) { 0 => *rng.pick(&ests), 1 => rng.below(300) as u32, 2 => rng.below(1 << 32) as u32, _ => rng.below(60_000) as u32 };
+		let b = (est as u64).max(253);
+		let prev = match rng.below(10) { 0 => 0, 1 => rng.near(5 * b), 2 => rng.near(4 * b), 3 => rng.below(6 * b + 10), 4 => rng.range(5 * b, 50 * b), 5 => rng.next() >> rng.below(40), 6 => rng.near(b), _ => rng.range(1, 200_000) };
+		one_pf(rec, &mut fails, prev, (k % 3) as u8, est, ""); n_pf += 1;
+	}
+	// ---- (1c) compute_package_output ------------------------------------------------------------------------------------
+	let n_po = if thorough { 200_000 } else { 8_000 } * scale;
+	for k in 0..n_po {
+		let w = match rng.below(10) { 0 => rng.range(1, 8), 1 => rng.range(1, 2000), _ => rng.range(400, 6000) };
+		let est = if rng.chance(1, 3) { rng.below(20_000) } else { *rng.pick(&[0u64, 100, 252, 253, 254, 1000, 5000, 50_000, 4_000_000_000]) };
+		let prev = match rng.below(8) { 0 | 1 => 0, 2 => rng.near(est.max(3)), 3 => rng.near(253), 4 => rng.below(1 << 32), 5 => rng.range(5 * est.max(253), 30 * est.max(253)), _ => rng.range(253, 30_000) };
+		let dust = *rng.pick(&[1u64, 294, 330, 546, 1000]) + if rng.chance(1, 6) { rng.below(5000) } else { 0 };   // `assert!(dust_limit_sats as i64 > 0)` is a precondition
+		let prev_fee = prev * w / 1000;
+		let amt = match rng.below(8) { 0 => rng.near(prev_fee + 253 * w / 1000 + dust), 1 => rng.near((prev + prev / 4) * w / 1000 + dust), 2 => rng.near(2 * (253 * w).div_ceil(1000)), 3 => rng.below(3000),
+			4 => rng.below(21_000_000 * 100_000_000), _ => rng.range(500, 5_000_000) };
+		let strat = (k % 3) as u8;
+		let r = guarded(AssertUnwindSafe(|| vp::compute_package_output(amt, w, dust, prev, strat, ConstFee(est as u32), &logger, &params[(k % 2) as usize])));
+		let res = match &r { Ok(Some((o, rt))) => format!("{} {}", o, rt), Ok(None) => "none".into(), Err(p) => format!("panic {}", p.split('\n').next().unwrap_or("")) };
+		let class = match &r { Ok(Some((o, rt))) => format!("po{}:{}:{}", strat, if prev == 0 { "first" } else if *rt == prev { "same" } else { "replace" }, if *o == dust { "dust-clamped" } else { "above-dust" }), Ok(None) => format!("po{}:none", strat), Err(_) => "po:panic".into() };
+		match &r {
+			Ok(Some((o, rt))) => {
+				if *o < dust || *o > amt.max(dust) { fails.push(format!("compute_package_output amount={} w={} dust={} prev={} strat={} est={} -> output {} outside [dust, inputs]", amt, w, dust, prev, strat, est, o)); }
+				if prev != 0 && w >= 4 && *rt < prev { fails.push(format!("compute_package_output LOWERS the feerate: amount={} w={} dust={} prev={} strat={} est={} -> feerate {}", amt, w, dust, prev, strat, est, rt)); }
+				if prev == 0 && *rt < 253 { fails.push(format!("compute_package_output first issue below the feerate floor: amount={} w={} dust={} est={} -> feerate {}", amt, w, dust, est, rt)); }
+			},
+			Ok(None) => {},
+			Err(p) => fails.push(format!("compute_package_output panicked amount={} w={} dust={} prev={} strat={} est={}: {}", amt, w, dust, prev, strat, est, p.split('\n').next().unwrap_or(""))),
+		}
+		rec.case(&format!("po {} {} {} {} {} {}", amt, w, dust, prev, strat, est), &res, &class, true);
+	}
+	// ---- (2) trajectories: the real functions iterated like OnchainTxHandler (`set_feerate(result)`) -------------------------
+	let n_traj = if thorough { 60_000 } else { 3_000 } * scale;
+	let mut kf1_seen = false;     // one concrete arithmetic input is enough
+	for k in 0..n_traj {
+		let kind = TRAJS[((k / 2) % 6) as usize];
+		let mut e = Est::new(kind, rng);
+		let len = rng.range(1, if thorough { 40 } else { 14 });
+		let start: u64 = if rng.chance(2, 3) { 0 } else { rng.range(1, 60_000) };
+		if k % 2 == 0 {
+			let mut prev = start; let mut steps = vec![]; let mut got: Vec<u64> = vec![]; let mut bad = None;
+			for i in 0..len {
+				let est = if i == 0 { e.cur } else { e.next(rng) };
+				let strat = match rng.below(8) { 0 => 0u8, 1 => 1, _ => 2 };
+				steps.push(format!("{}:{}", strat, est));
+				match real_pf(&params[1], prev, strat, est) {
+					Ok(v) => { pf_oracle(&mut fails, prev, strat, est, v, &format!(" (step {} of trajectory {:?} [{}] from {})", i, kind, steps.join(" "), start));
+						if let Some(last) = got.last() { if (v as u64) < *last && bad.is_none() { bad = Some((i, *last, v)); } }
+						got.push(v as u64); prev = v as u64; },
+					Err(p) => { fails.push(format!("compute_package_feerate panicked in trajectory {:?} [{}]: {}", kind, steps.join(" "), p.split('\n').next().unwrap_or(""))); break; },
+				}
+			}
+			if let Some((i, a, b)) = bad { fails.push(format!("target feerate went DOWN from {} to {} at step {} of estimator trajectory {:?} [{}] (claim first stored feerate {})", a, b, i, kind, steps.join(" "), start)); }
+			let res = if got.is_empty() { "-".to_string() } else { got.iter().map(|x| x.to_string()).collect::<Vec<_>>().join(" ") };
+			rec.case(&format!("ext {} {}", start, steps.join(" ")), &res, &format!("ext:{:?}:{}", kind, if got.windows(2).all(|w| w[0] == w[1]) { "flat" } else { "raised" }), true);
+		} else {
+			let mut prev = start; let mut steps = vec![]; let mut got: Vec<u64> = vec![]; let mut all_w4 = true; let mut last_fee: Option<(u64, u64, u64)> = None;
+			let base_amt = rng.range(3_000, 3_000_000); let base_w = rng.range(400, 3000);
+			for i in 0..len {
+				let est = if i == 0 { e.cur } else { e.next(rng) };
+				let strat = match rng.below(8) { 0 => 0u8, 1 => 1, _ => 2 };
+				// packages get split / merged between issues: amount and weight move
+				let amt = if rng.chance(1, 5) { rng.range(600, base_amt) } else { base_amt };
+				let w = if rng.chance(1, 5) { rng.range(300, 4000) } else if rng.chance(1, 40) { rng.range(1, 6) } else { base_w };
+				let dust = *rng.pick(&[294u64, 330, 546]);
+				if w < 4 { all_w4 = false; }
+				steps.push(format!("{}:{}:{}:{}:{}", amt, w, dust, strat, est));
+				match guarded(AssertUnwindSafe(|| vp::compute_package_output(amt, w, dust, prev, strat, ConstFee(est), &logger, &params[0]))) {
+					Ok(Some((o, rt))) => {
+						if o > dust {
+							let fee = amt - o;
+							if let Some((la, lw, lf)) = last_fee { if la == amt && lw == w && fee < lf {
+								if lf - fee <= w / 1000 + 1 && strat != 2 && rt == prev { if !kf1_seen { kf1_seen = true; fails.push(format!("{}: {} -> {} sat at step {} of compute_package_output trajectory [{}] from stored feerate {}", KF1, lf, fee, i, steps.join(" "), start)); } }
+								else { fails.push(format!("fee of a self-funded claim went DOWN from {} to {} sat (same inputs and weight) at step {} of [{}] from {}", lf, fee, i, steps.join(" "), start)); }
+							} }
+							last_fee = Some((amt, w, fee));
+						} else { last_fee = None; }
+						if let Some(last) = got.last() { if rt < *last && all_w4 { fails.push(format!("feerate of a self-funded claim went DOWN from {} to {} at step {} of [{}] from {}", last, rt, i, steps.join(" "), start)); } } got.push(rt); prev = rt; },
+					Ok(None) => {},
+					Err(p) => { fails.push(format!("compute_package_output panicked in trajectory [{}]: {}", steps.join(" "), p.split('\n').next().unwrap_or(""))); break; },
+				}
+			}
+			let res = if got.is_empty() { "-".to_string() } else { got.iter().map(|x| x.to_string()).collect::<Vec<_>>().join(" ") };
+			rec.case(&format!("own {} {}", start, steps.join(" ")), &res, &format!("own:{:?}:{}", kind, got.len().min(6)), true);
+		}
+	}
+	rec.notes.insert("arith".into(), format!("{} compute_package_feerate calls (boundary grid: 14 estimates x ~50 previous feerates x 3 strategies, then PRNG), {} compute_package_output calls, {} trajectories of the real functions", n_pf, n_po, n_traj));
+	// at most 3 concrete inputs per kind of failure (the end-to-end scenarios report theirs after these)
+	let mut per_kind: BTreeMap<String, u32> = BTreeMap::new();
+	for f in fails {
+		let kind: String = f.chars().take_while(|c| !c.is_ascii_digit()).take(70).collect();
+		let n = per_kind.entry(kind).or_insert(0); *n += 1;
+		if *n <= 3 { rec.oracle_fail(f); }
+	}
+	for (k, n) in per_kind { if n > 3 { rec.notes.insert(format!("more:{}", k), format!("{} inputs in all", n)); } }
+}
+
+struct FeeOut { ops: Vec<(String, String, String)>, oracle: Vec<String>, class: String, events: u32, lowered_est_steps: u32, funded: u32, replacements: u32, double_bumps: u32, sig_noise: u32 }
+
+/// one ANCHOR channel closed unilaterally by node `x`; both nodes follow the chain block by block while the fee estimator of
+/// both follows a scripted trajectory.  `x` (closed by the HOLDER) yields BumpTransaction events; `y` (closed by its
+/// COUNTERPARTY) issues self-funded claims.
+fn fee_scenario(seed: u64, thorough: bool) -> Result<FeeOut, String> {
+	let mut rng = Rng::new(seed);
+	let mut out = FeeOut { ops: vec![], oracle: vec![], class: String::new(), events: 0, lowered_est_steps: 0, funded: 0, replacements: 0, double_bumps: 0, sig_noise: 0 };
+	let hook_params = bump::synth_params(true);
+	let kind = TRAJS[rng.below(5) as usize];       // Constant is covered by the other generators
+	let mut est = Est::new(kind, &mut rng);
+	let cfg = test_default_channel_config();          // anchors_zero_fee_htlc_tx
+	let mut net = std::mem::ManuallyDrop::new(Net::new(2, vec![Some(cfg.clone()), Some(cfg)]));
+	let style = {
+		use ConnectStyle::*;
+		let styles = [BestBlockFirst, BestBlockFirstSkippingBlocks, BestBlockFirstReorgsOnlyTip, TransactionsFirst, TransactionsFirstSkippingBlocks,
+			TransactionsDuplicativelyFirstSkippingBlocks, HighlyRedundantTransactionsFirstSkippingBlocks, TransactionsFirstReorgsOnlyTip, FullBlockViaListen,
+			ReplayedFullBlockViaListen, FullBlockDisconnectionsSkippingViaListen];
+		let st = styles[rng.below(styles.len() as u64) as usize];
+		for i in 0..2 { *net.nodes[i].connect_style.borrow_mut() = st; }
+		st
+	};
+	let reserve = provide_utxo_reserves(&net.nodes, 6, bitcoin::Amount::from_sat(20_000_000));
+	let c = net.open(0, 1, 1_000_000, 400_000_000);
+	let chan_id = net.chans[c].2;
+	let x = rng.below(2) as usize; let y = 1 - x;
+	// ---- HTLC mix: non-dust HTLCs in both directions, some preimages known to the receiver (fulfil not delivered) -----------
+	let n_htlc = rng.range(1, if thorough { 6 } else { 4 });
+	let mut pays = vec![];
+	for _ in 0..n_htlc {
+		let (p, q) = if rng.chance(1, 2) { (0, 1) } else { (1, 0) };
+		if let Ok(pi) = net.send(&[p, q], &[c], rng.range(2_000_000, 30_000_000), 42 + rng.below(12) as u32) { pays.push(pi); }
+		net.settle(40);
+	}
+	for &p in &pays { if rng.chance(1, 2) { net.claim(p); let to = net.pays[p].to; net.process_events(to); } }
+	// ---- observation state ---------------------------------------------------------------------------------------------------------
+	let fund_policy = rng.below(3);                 // 0 never, 1 always, 2 half of the events
+	let lazy = rng.chance(1, 2);
+	let commit_delay = rng.range(1, 7) as u32;      // the closing commitment confirms after this many blocks
+	let mut prevouts: HashMap<OutPoint, TxOut> = HashMap::new();
+	for (i, o) in reserve.output.iter().enumerate() { prevouts.insert(OutPoint { txid: reserve.compute_txid(), vout: i as u32 }, o.clone()); }
+	for i in 0..2 { let blocks = net.nodes[i].blocks.lock().unwrap(); for (blk, _) in blocks.iter() { for t in &blk.txdata { let id = t.compute_txid(); for (k, o) in t.output.iter().enumerate() { prevouts.insert(OutPoint { txid: id, vout: k as u32 }, o.clone()); } } } }
+	let mut confirmed: HashMap<Txid, u32> = HashMap::new();
+	let mut spent: BTreeSet<OutPoint> = BTreeSet::new();
+	let mut pool: Vec<(Transaction, usize)> = vec![];
+	let mut last_target: BTreeMap<[u8; 32], u32> = BTreeMap::new();
+	let mut history: BTreeMap<[u8; 32], Vec<String>> = BTreeMap::new();
+	let mut last_funded: BTreeMap<[u8; 32], (Vec<OutPoint>, u64, u64)> = BTreeMap::new();      // claim -> (inputs, fee, weight) of the latest funded package
+	let mut last_own: BTreeMap<Vec<OutPoint>, (u64, u64)> = BTreeMap::new();                    // y: inputs -> (fee, weight)
+	let mut commitment: Option<Transaction> = None;
+	let tag = format!("s{}", seed);      // C07_FEE_SEED=<this number> replays the scenario
+	let desc = format!("anchor channel closed by the holder (node {}), connect style {:?}, estimator {:?}", x, style, kind);
+	let set_est = |net: &Net, v: u32| { for i in 0..2 { *net.nodes[i].fee_estimator.sat_per_kw.lock().unwrap() = v; } };
+	let fee_of_tx = |t: &Transaction, prevouts: &HashMap<OutPoint, TxOut>| -> Option<u64> { let mut inp = 0u64; for i in &t.input { inp += prevouts.get(&i.previous_output)?.value.to_sat(); } inp.checked_sub(t.output.iter().map(|o| o.value.to_sat()).sum::<u64>()) };
+	// what node x's monitor yields after one call (`strat`: which FeerateStrategy that call uses for a claim issued before)
+	macro_rules! collect_x { ($strat:expr, $cur_est:expr) => {{
+		let h = net.nodes[x].best_block_info().1;
+		for e in net.nodes[x].chain_monitor.chain_monitor.get_and_clear_pending_events() {
+			if let Event::BumpTransaction(ev) = e {
+				let (cid, target, what, n_in) = match &ev {
+					BumpTransactionEvent::ChannelClose { claim_id, package_target_feerate_sat_per_1000_weight, commitment_tx, .. } => {
+						let id = commitment_tx.compute_txid();
+						for (k, o) in commitment_tx.output.iter().enumerate() { prevouts.insert(OutPoint { txid: id, vout: k as u32 }, o.clone()); }
+						if commitment.is_none() { commitment = Some(commitment_tx.clone()); }
+						(claim_id.0, *package_target_feerate_sat_per_1000_weight, "commitment", 1usize) },
+					BumpTransactionEvent::HTLCResolution { claim_id, target_feerate_sat_per_1000_weight, htlc_descriptors, .. } => (claim_id.0, *target_feerate_sat_per_1000_weight, "htlc", htlc_descriptors.len()),
+				};
+				out.events += 1;
+				let prev = last_target.get(&cid).cloned().unwrap_or(0);
+				let strat: u8 = $strat;
+				let hist = history.entry(cid).or_default();
+				hist.push(format!("h{} est={} {}->{}", h, $cur_est, ["retry", "highest", "force"][strat as usize], target));
+				if target < prev {
+					out.oracle.push(format!("target feerate of {} claim {} went DOWN from {} to {} sat/kW ({}; estimator now {}; history of this claim: {})", what, hex(&cid[..4]), prev, target, desc, $cur_est, hist.join(", ")));
+				}
+				if prev != 0 && ($cur_est as u64).max(253) < prev as u64 { out.lowered_est_steps += 1; }
+				// Events of one claim id replace each other in the monitor's queue, and one block can run generate_claim twice for a claim
+				// (its timer fires in best_block_updated AND a confirmed transaction touches / creates the package in
+				// transactions_confirmed, in either order): explain the observed target by ONE call, else by TWO successive
+				// calls of the real compute_package_feerate (the second a ForceBump) — the model then has to agree with both.
+				let cls = format!("e2e:{}:{}", what, if prev == 0 { "first".to_string() } else { format!("{}:{}", ["retry", "highest", "force"][strat as usize], if target == prev { "kept" } else { "raised" }) });
+				let one = real_pf(&hook_params, prev as u64, strat, $cur_est).ok();
+				let two = one.and_then(|r1| real_pf(&hook_params, r1 as u64, 2, $cur_est).ok().map(|r2| (r1, r2)));
+				match (one, two) {
+					(Some(r1), Some((_, r2))) if r1 != target && r2 == target && $strat == 2 => {
+						out.double_bumps += 1;
+						out.ops.push((format!("ext {} {}:{} 2:{} {}", prev, strat, $cur_est, $cur_est, tag), format!("{} {}", r1, target), format!("{}:twice-in-one-block", cls)));
+					},
+					_ => out.ops.push((format!("pf {} {} {} {}", prev, strat, $cur_est, tag), target.to_string(), cls)),
+				}
+				last_target.insert(cid, target);
+				let fund = match fund_policy { 0 => false, 1 => true, _ => rng.chance(1, 2) };
+				if fund {
+					let before = net.nodes[x].tx_broadcaster.txn_broadcasted.lock().unwrap().len();
+					if let Err(p) = guarded(AssertUnwindSafe(|| net.nodes[x].bump_tx_handler.handle_event(&ev))) { out.oracle.push(format!("BumpTransactionEventHandler panicked on a {} event ({}): {}", what, desc, p.replace('\n', " ").chars().take(200).collect::<String>())); }
+					let txs: Vec<Transaction> = net.nodes[x].tx_broadcaster.txn_broadcasted.lock().unwrap().drain(before..).collect();
+					if !txs.is_empty() {
+						out.funded += 1;
+						for t in &txs { let id = t.compute_txid(); for (k, o) in t.output.iter().enumerate() { prevouts.insert(OutPoint { txid: id, vout: k as u32 }, o.clone()); } }
+						let mut fee = 0u64; let mut weight = 0u64; let mut known = true; let mut ins: Vec<OutPoint> = vec![];
+						for t in &txs {
+							match fee_of_tx(t, &prevouts) { Some(f) => fee += f, None => known = false }
+							weight += t.weight().to_wu();
+							for i in &t.input { ins.push(i.previous_output); }
+							if known { if let Err(e) = t.verify(|op| prevouts.get(op).cloned()) { out.oracle.push(format!("funded {} transaction {} fails consensus verification: {:?} ({})", what, t.compute_txid(), e, desc)); } }
+						}
+						ins.sort();
+						if known {
+							if let Some((pins, pfee, pweight)) = last_funded.get(&cid) {
+								out.replacements += 1;
+								let (rate, prate) = (fee * 1000 / weight, pfee * 1000 / pweight);
+								// the handler sets fee = target x SIGNED weight: ECDSA signatures vary by a byte or two, so a re-issue at an
+								// unchanged target may pay a few sat less (counted, not a failure); anything beyond 4 WU of noise is one
+								let noise = 4 * prate / 1000 + 2;
+								if *pins == ins && fee < *pfee && fee + noise >= *pfee { out.sig_noise += 1; }
+								if *pins == ins && fee + noise < *pfee { out.oracle.push(format!("replacement of {} claim {} pays LESS fee than the transaction it replaces: {} -> {} sat, same inputs (targets {}; {})", what, hex(&cid[..4]), pfee, fee, hist.join(", "), desc)); }
+								else if rate * 100 < prate * 99 { out.oracle.push(format!("replacement of {} claim {} pays a LOWER feerate than the transaction it replaces: {} -> {} sat/kW (fee {} -> {}, weight {} -> {}; targets {}; {})", what, hex(&cid[..4]), prate, rate, pfee, fee, pweight, weight, hist.join(", "), desc)); }
+							}
+							last_funded.insert(cid, (ins, fee, weight));
+						}
+						let _ = n_in;
+						for t in txs { pool.push((t, x)); }
+					}
+				}
+			}
+		}
+	}}; }
+	// what node y (and x, for its non-event claims) broadcast on its own
+	macro_rules! collect_bcast { ($strat:expr) => {{
+		for i in 0..2 {
+			let v: Vec<Transaction> = net.nodes[i].tx_broadcaster.txn_broadcasted.lock().unwrap().drain(..).collect();
+			for t in v {
+				let id = t.compute_txid();
+				for (k, o) in t.output.iter().enumerate() { prevouts.insert(OutPoint { txid: id, vout: k as u32 }, o.clone()); }
+				if i == y {
+					if let Some(f) = fee_of_tx(&t, &prevouts) {
+						if let Err(e) = t.verify(|op| prevouts.get(op).cloned()) { out.oracle.push(format!("claim {} of the node closed on by its counterparty fails consensus verification: {:?} ({})", id, e, desc)); }
+						let mut key: Vec<OutPoint> = t.input.iter().map(|q| q.previous_output).collect(); key.sort();
+						let w = t.weight().to_wu();
+						if let Some((pf, pw)) = last_own.get(&key) {
+							out.replacements += 1;
+							if f < *pf {
+								if *pf - f <= w.max(*pw) / 1000 + 2 /* signed weights; the fee is computed from the slightly larger PREDICTED weight */ && $strat != 2u8 { out.oracle.push(format!("{}: {} -> {} sat at weight {} (real claim of the node closed on by its counterparty; {}; estimator now {})", KF1, pf, f, w, desc, est.cur)); }
+								else { out.oracle.push(format!("self-funded claim re-issued with LESS fee than the transaction it replaces: {} -> {} sat, weight {} -> {} ({}; estimator now {})", pf, f, pw, w, desc, est.cur)); }
+							}
+							else if f * 1000 / w * 100 < pf * 1000 / pw * 99 { out.oracle.push(format!("self-funded claim re-issued at a LOWER feerate than the transaction it replaces: {} -> {} sat/kW ({})", pf * 1000 / pw, f * 1000 / w, desc)); }
+						}
+						last_own.insert(key, (f, w));
+					}
+				}
+				pool.push((t, i));
+			}
+		}
+	}}; }
+	// ---- closure ----------------------------------------------------------------------------------------------------------------------
+	for i in 0..2 { net.nodes[i].tx_broadcaster.txn_broadcasted.lock().unwrap().clear(); let _ = net.nodes[i].chain_monitor.chain_monitor.get_and_clear_pending_events(); }
+	set_est(&net, est.cur);
+	net.nodes[x].node.force_close_broadcasting_latest_txn(&chan_id, &net.ids[y], "verif".to_string()).map_err(|e| format!("force close: {:?}", e))?;
+	collect_x!(2, est.cur);
+	collect_bcast!(2u8);
+	if commitment.is_none() { return Err("no ChannelClose event after the force close".into()); }
+	let drain = |net: &Net| { for i in 0..2 { let _ = net.nodes[i].node.get_and_clear_pending_msg_events(); let _ = net.nodes[i].node.get_and_clear_pending_events(); net.nodes[i].chain_monitor.added_monitors.lock().unwrap().clear(); } };
+	let rounds = if thorough { 110 } else { 95 };
+	let mut commit_conf: Option<u32> = None;
+	for round in 0..rounds {
+		// between blocks: rebroadcast_pending_claims (HighestOfPreviousOrNew) / signer_unblocked (RetryPrevious), possibly after the estimator moved
+		if rng.chance(1, 5) {
+			if rng.chance(1, 2) { let v = est.next(&mut rng); set_est(&net, v); }
+			if rng.chance(3, 4) { for i in 0..2 { net.nodes[i].chain_monitor.chain_monitor.rebroadcast_pending_claims(); } collect_x!(1, est.cur); collect_bcast!(1u8); }
+			else { for i in 0..2 { net.nodes[i].chain_monitor.chain_monitor.signer_unblocked(None); } collect_x!(0, est.cur); collect_bcast!(0u8); }
+		}
+		let v = est.next(&mut rng); set_est(&net, v);
+		let h = net.nodes[x].best_block_info().1;
+		// ---- the next block: latest versions first, parents before children ---------------------------------------------------------
+		let mut block: Vec<Transaction> = vec![];
+		let mut taken: BTreeSet<OutPoint> = BTreeSet::new();
+		let mut in_block: BTreeSet<Txid> = BTreeSet::new();
+		let want_commit = commit_conf.is_none() && round + 1 >= commit_delay;
+		let cands: Vec<(Transaction, usize)> = pool.iter().rev().cloned().collect();
+		for (t, who) in cands.iter() {
+			let id = t.compute_txid();
+			if confirmed.contains_key(&id) || in_block.contains(&id) { continue; }
+			let is_commit = commitment.as_ref().map(|c| c.compute_txid() == id).unwrap_or(false);
+			let spends_commit_unconf = commit_conf.is_none() && commitment.as_ref().map(|c| t.input.iter().any(|i| i.previous_output.txid == c.compute_txid())).unwrap_or(false);
+			if (is_commit || spends_commit_unconf) && !want_commit { continue; }
+			if !is_commit && !spends_commit_unconf { let p = if lazy { (1, 9) } else { (1, 3) }; if !rng.chance(p.0, p.1) { continue; } }
+			let _ = who;
+			// parents that are not confirmed yet must come along (only the commitment can be one)
+			let mut group: Vec<Transaction> = vec![];
+			let mut ok = true;
+			for i in &t.input {
+				let ptx = i.previous_output.txid;
+				if confirmed.contains_key(&ptx) || in_block.contains(&ptx) || group.iter().any(|g| g.compute_txid() == ptx) { continue; }
+				match (commitment.as_ref(), prevouts.contains_key(&i.previous_output)) {
+					(Some(cm), _) if cm.compute_txid() == ptx => group.push(cm.clone()),
+					(_, true) if !pool.iter().any(|(q, _)| q.compute_txid() == ptx) => {},   // confirmed long ago (funding, wallet reserve)
+					_ => { ok = false; }
+				}
+			}
+			group.push(t.clone());
+			if !ok { continue; }
+			let mut tk = taken.clone();
+			for g in &group {
+				if !g.input.iter().all(|i| prevouts.contains_key(&i.previous_output) && !spent.contains(&i.previous_output) && tk.insert(i.previous_output)) { ok = false; }
+				if g.lock_time.is_block_height() && g.lock_time.to_consensus_u32() > h { ok = false; }
+				for i in &g.input { if let Some(bitcoin::relative::LockTime::Blocks(n)) = i.sequence.to_relative_lock_time() { match confirmed.get(&i.previous_output.txid) { Some(ph) => if h + 1 < ph + n.value() as u32 { ok = false; }, None => if n.value() > 0 && g.version.0 >= 2 { ok = false; } } } }
+				if g.verify(|op| prevouts.get(op).cloned()).is_err() { ok = false; }
+			}
+			if !ok { continue; }
+			taken = tk;
+			for g in group { in_block.insert(g.compute_txid()); block.push(g); }
+		}
+		if want_commit && !block.iter().any(|t| Some(t.compute_txid()) == commitment.as_ref().map(|c| c.compute_txid())) {
+			let cm = commitment.clone().unwrap();
+			if cm.input.iter().all(|i| !spent.contains(&i.previous_output) && !taken.contains(&i.previous_output)) { for i in &cm.input { taken.insert(i.previous_output); } block.insert(0, cm); }
+		}
+		for t in &block { let id = t.compute_txid(); confirmed.insert(id, h + 1); for i in &t.input { spent.insert(i.previous_output); } if Some(id) == commitment.as_ref().map(|c| c.compute_txid()) { commit_conf = Some(h + 1); } }
+		for i in 0..2 { let refs: Vec<&Transaction> = block.iter().collect(); if refs.is_empty() { connect_blocks(&net.nodes[i], 1); } else { mine_transactions(&net.nodes[i], &refs); } }
+		drain(&net);
+		collect_x!(2, est.cur);
+		collect_bcast!(2u8);
+		let _ = net.nodes[y].chain_monitor.chain_monitor.get_and_clear_pending_events();
+	}
+	let n_claims = last_target.len();
+	out.class = format!("fee:{:?}:fund{}:claims{}", kind, fund_policy, n_claims.min(4));
+	drain(&net);
+	Ok(out)
+}
+
+fn run_fee(rec: &mut Rec, rng: &mut Rng, thorough: bool, scale: u64) {
+	if let Ok(sd) = std::env::var("C07_FEE_SEED") {
+		// replay of ONE end-to-end scenario: C07_FEE_SEED=<seed printed in the oracle message> target/debug/c07 c07fee --out <dir>
+		silence_stdout();
+		match fee_scenario(sd.parse().expect("C07_FEE_SEED"), thorough) {
+			Ok(o) => { for (op, res, cl) in &o.ops { eprintln!("{}  ->  {}   [{}]", op, res, cl); rec.case(op, res, cl, true); } for f in o.oracle { eprintln!("ORACLE {}", f); rec.oracle_fail(f); } },
+			Err(e) => eprintln!("discarded: {}", e),
+		}
+		return;
+	}
+	run_fee_arith(rec, rng, thorough, scale);
+	silence_stdout();
+	let n = if thorough { 4000 } else { 300 } * scale;
+	let (mut events, mut lowered, mut funded, mut repl, mut doubles, mut noise) = (0u64, 0u64, 0u64, 0u64, 0u64, 0u64);
+	let mut by_traj: BTreeMap<String, u64> = BTreeMap::new();
+	let mut kf1 = 0u64;
+	for k in 0..n {
+		let s = rng.next();
+		match guarded(AssertUnwindSafe(|| fee_scenario(s, thorough))) {
+			Ok(Ok(o)) => {
+				*rec.classes.entry(o.class.clone()).or_insert(0) += 1;
+				*by_traj.entry(o.class.split(':').nth(1).unwrap_or("").to_string()).or_insert(0) += 1;
+				events += o.events as u64; lowered += o.lowered_est_steps as u64; funded += o.funded as u64; repl += o.replacements as u64; doubles += o.double_bumps as u64; noise += o.sig_noise as u64;
+				for (op, res, cl) in &o.ops { rec.case(op, res, cl, true); }
+				for f in o.oracle {
+					if f.starts_with(KF1) { kf1 += 1; if kf1 > 3 { continue; } }      // the known rounding finding: three concrete scenarios are enough
+					rec.oracle_fail(format!("fee scenario {} (seed {}): {}", k, s, f));
+				}
+			},
+			Ok(Err(e)) => { rec.discarded += 1; *rec.classes.entry(format!("discarded:{}", e.chars().take(40).collect::<String>())).or_insert(0) += 1; },
+			Err(p) => rec.oracle_fail(format!("fee scenario {} (seed {}) panicked: {}", k, s, p.replace('\n', " ").chars().take(300).collect::<String>())),
+		}
+	}
+	rec.notes.insert("e2e".into(), format!("{} anchor channels closed unilaterally (each: the closer = holder-side externally funded claims, the other node = counterparty-side self-funded claims), estimator trajectories {:?}; {} BumpTransaction events followed per claim id, {} of them re-issues while the estimate was BELOW the previous target, {} events funded through BumpTransactionEventHandler, {} replacement transactions compared with what they replace ({} re-issues at an unchanged target paid a few sat less within ECDSA signature-size noise); {} events explained by two generate_claim calls in one block", n, by_traj, events, lowered, funded, repl, noise, doubles));
+	rec.notes.insert("kf-c07-1".into(), format!("{} re-broadcasts of a real self-funded claim paid 1..weight/1000+1 sat less than the transaction they re-issue (first 3 reported)", kf1));
+	rec.notes.insert("rule".into(), "boundary grid + PRNG tuples through the real compute_package_feerate / compute_package_output; the real functions iterated over scripted estimator trajectories (falling, rising, oscillating, random walk, spike-then-crash, constant) with mixed strategies; real anchor channels closed unilaterally with the estimator moving between blocks, every BumpTransaction event = one compared op (target feerate given the claim's previous target, the strategy of the call and the estimate in force); distinct by op text (e2e ops carry the scenario tag)".into());
+}
+
 fn main() {
 	let args = &parse_args("c07bump");
 	let mut rec = Rec::new(&args.out, &args.model);
 	let mut rng = Rng::new(args.seed);
 	match args.model.as_str() {
 		"c07bump" => bump::run_bump(&mut rec, &mut rng, args.thorough, args.scale),
+		"c07fee" => run_fee(&mut rec, &mut rng, args.thorough, args.scale),
 		"c07close" => {
 			silence_stdout();
 			let n = if args.thorough { 3000 } else { 200 } * args.scale;
@@ -269,6 +741,7 @@ fn main() {
 				match guarded(AssertUnwindSafe(|| close_scenario(s, args.thorough))) {
 					Ok(Ok(o)) => {
 						*rec.classes.entry(o.class.clone()).or_insert(0) += 1;
+						*rec.classes.entry(o.est_kind.clone()).or_insert(0) += 1;
 						for (op, res, cl) in &o.ops { if res == "-" && cl == "claim" { rec.directive(op); } else { rec.case(&format!("{}", op), res, cl, cl != "block:quiet"); } }
 						for f in o.oracle { rec.oracle_fail(format!("scenario {} (seed {}): {}", k, s, f)); }
 					},
